@@ -207,6 +207,41 @@ theorem validateMaxAge_eq (d : Int) :
         have hpos : ¬ d < 0 := by omega
         simp only [hz', Bool.false_eq_true, if_false, hpos]
 
+/-- One iteration of the loop of `validateMethods` as translated = `Validate.methodStep`: wildcard, validity before
+normalisation, the safelisted free pass, the forbidden test on the normalised name, what is stored. -/
+theorem methodStep_eq (st : Validate.MState) (name : Bytes) : Gen.GoSrc.methodStep st name = Validate.methodStep st name := by
+  unfold Gen.GoSrc.methodStep Validate.methodStep Validate.star
+  cases (name == Facts.headers_ValueWildcard) <;> cases Methods.isValid name <;>
+    cases Methods.isSafelisted (Methods.normalize name) <;> cases Methods.isForbidden (Methods.normalize name) <;> rfl
+
+/-- One iteration of the loop of `validateRequestHeaders` as translated = `Validate.reqHdrStep` (the mid-loop flags for `*` and
+`Authorization` included). -/
+theorem reqHdrStep_eq (credentialed : Bool) (st : Validate.RState) (name : Bytes) :
+    Gen.GoSrc.reqHdrStep credentialed st name = Validate.reqHdrStep credentialed st name := by
+  unfold Gen.GoSrc.reqHdrStep Validate.reqHdrStep Validate.star
+  cases (name == Facts.headers_ValueWildcard) <;> cases Headers.isValid name <;>
+    cases (name.lower == Facts.headers_Authorization) <;> cases st.allowAuth <;> cases st.asterisk <;> cases credentialed <;>
+    cases Headers.isForbiddenRequestHeaderName name.lower <;> cases Headers.isProhibitedRequestHeaderName name.lower <;> rfl
+
+/-- One iteration of the loop of `validateResponseHeaders` as translated = `Validate.resHdrStep`. -/
+theorem resHdrStep_eq (credentialed : Bool) (st : Validate.EState) (name : Bytes) :
+    Gen.GoSrc.resHdrStep credentialed st name = Validate.resHdrStep credentialed st name := by
+  unfold Gen.GoSrc.resHdrStep Validate.resHdrStep Validate.star
+  cases (name == Facts.headers_ValueWildcard) <;> cases credentialed <;> cases Headers.isValid name <;>
+    cases Headers.isForbiddenResponseHeaderName name.lower <;> cases Headers.isProhibitedResponseHeaderName name.lower <;>
+    cases Headers.isSafelistedResponseHeaderName name.lower <;> simp
+
+/-- Hence the folds over the configured lists are the model's. -/
+theorem loops_eq (credentialed : Bool) (names : List Bytes) :
+    names.foldl Gen.GoSrc.methodStep {} = names.foldl Validate.methodStep {} ∧
+    names.foldl (Gen.GoSrc.reqHdrStep credentialed) {} = names.foldl (Validate.reqHdrStep credentialed) {} ∧
+    names.foldl (Gen.GoSrc.resHdrStep credentialed) {} = names.foldl (Validate.resHdrStep credentialed) {} := by
+  have h1 : Gen.GoSrc.methodStep = Validate.methodStep := by funext st n; exact methodStep_eq st n
+  have h2 : Gen.GoSrc.reqHdrStep credentialed = Validate.reqHdrStep credentialed := by funext st n; exact reqHdrStep_eq credentialed st n
+  have h3 : Gen.GoSrc.resHdrStep credentialed = Validate.resHdrStep credentialed := by funext st n; exact resHdrStep_eq credentialed st n
+  rw [h1, h2, h3]
+  exact ⟨rfl, rfl, rfl⟩
+
 /-- The four decision steps of the preflight pipeline, as translated from the working tree, are the modelled ones. -/
 theorem pipeline_eq (icfg : ICfg) (buf : Buf) (reqHdrs : HdrMap) (origin acrm : Bytes) (debug : Bool) :
     Gen.GoSrc.processOriginForPreflight icfg buf origin [origin] = GoRt.result buf (Serve.processOriginForPreflight (modelDec icfg) icfg buf origin) ∧
